@@ -118,11 +118,32 @@ def shards(tier):
     return [{"cls": c.name, "rep": r} for c in ALL for r in range(reps)]
 
 
-def _gen_step(ci, dom):
+def _gen_step(ci, dom, script=None):
+    script = list(script or [])
+
     def g(draw, w):
         roots = w.roots()
         if not roots:
             return {"t": "new", "r": 0, "id": w.next_id()}
+        if script:
+            # two objects on the watched file with overlapping per-object contexts: one reads, the
+            # other never loads (or loaded long ago) and leaves its context first
+            if len([i for i in roots if w.handles[i].res == 0]) < 2:
+                return {"t": "new", "r": 0, "id": w.next_id()}
+            a, b = [i for i in roots if w.handles[i].res == 0][:2]
+            kind = script.pop(0)
+            if kind == "read_b_unbuffered":
+                return gen.draw_read(draw, w, b, dom, methods=["call"], refs=False)
+            if kind == "reformat":
+                return {"t": "reformat", "indent": 2}
+            if kind == "enter_a":
+                return {"t": "enter_obj", "h": a}
+            if kind == "read_a":
+                return gen.draw_read(draw, w, a, dom, methods=["call", "len"], refs=False)
+            if kind == "enter_b":
+                return {"t": "enter_obj", "h": b}
+            if kind == "exit":
+                return {"t": "exit"} if w.stack else None
         c = draw(st.integers(0, 19))
         if c == 0 and len(roots) < 2:
             return {"t": "new", "r": 0, "id": w.next_id()}
@@ -188,7 +209,14 @@ def run_shard(spec, seed, tier, active):
             docs = [init]
             if ci.backend == "json" and draw(st.booleans()):
                 docs = [init, draw(dom.doc(ci.kind))]
-            w = wm.run_generated(ID, ci, docs, _gen_step(ci, dom), draw, 30, engine="roworld",
+            script = None
+            if ci.buffered and draw(st.integers(0, 3)) == 0:
+                script = draw(st.sampled_from([
+                    ["enter_a", "read_a", "enter_b", "exit", "exit"],
+                    ["read_b_unbuffered", "reformat", "enter_a", "read_a", "enter_b", "exit", "exit"],
+                    ["enter_a", "enter_b", "read_a", "exit", "exit"],
+                ]))
+            w = wm.run_generated(ID, ci, docs, _gen_step(ci, dom, script), draw, 30, engine="roworld",
                                  check_outcome=False)
         finally:
             audit.stop()
